@@ -188,6 +188,14 @@ class Normalizer(ast.NodeTransformer):
             one = ast.Constant(value=1)
             new = ast.Call(func=ast.Name(id="range", ctx=ast.Load()), args=[ast.BinOp(left=b, op=ast.Sub(), right=one), ast.BinOp(left=a, op=ast.Sub(), right=one), ast.UnaryOp(op=ast.USub(), operand=one)], keywords=[])
             return ast.copy_location(new, node)
+        # datetime(y, m, d).replace(tzinfo=X)  ->  datetime(y, m, d, tzinfo=X)
+        if (
+            isinstance(node.func, ast.Attribute) and node.func.attr == "replace" and not node.args and len(node.keywords) == 1 and node.keywords[0].arg == "tzinfo"
+            and isinstance(node.func.value, ast.Call) and isinstance(node.func.value.func, ast.Name) and node.func.value.func.id == "datetime"
+            and not any(k.arg == "tzinfo" for k in node.func.value.keywords)
+        ):
+            inner = node.func.value
+            return ast.copy_location(ast.Call(func=inner.func, args=inner.args, keywords=list(inner.keywords) + [node.keywords[0]]), node)
         if isinstance(node.func, ast.Name) and node.func.id == "dict" and not node.args and node.keywords and all(k.arg for k in node.keywords):
             return ast.copy_location(ast.Dict(keys=[ast.copy_location(ast.Constant(value=k.arg), node) for k in node.keywords], values=[k.value for k in node.keywords]), node)
         return node
